@@ -28,6 +28,8 @@ def runNlistC03 (S : Sys) (cutoff : Rat) (init delta : Nat) (tol : Rat) : Except
   if !validEntries es then .error "value" else
   let bt := fillBins srcBinParams es
   let cs := (occupied es).flatMap (binPairsA G bt)
+  -- the bins read from the capacity table must be the list bins (theorem `cands_table_eq`)
+  if cs ≠ candsOf G es then .error "assert-bins" else
   let c2 := cutoff * cutoff
   let tbl := distTable S
   let acc := tableAccept tbl c2
